@@ -210,7 +210,7 @@ class Gen:
             first = self.pick(["&self", "self", "&mut self", "&'a self", "self: Box<Self>"])
         # further generics
         if self.maybe(0.3):
-            generics.append(self.pick(["T", "T: Clone", "T: A + 'static", "T = u8"]))
+            generics.append(self.pick(["T", "T: Clone", "T: A + 'static", "T = u8"] + (["T: 'a", "T: Gen<'a>"] if lifetimes else [])))
             if self.maybe(0.4):
                 where.append(self.pick(["T: B", "Vec<T>: Clone", "T: Iterator<Item = u8>", "for<'x> &'x T: A"]))
         if self.maybe(0.12):
@@ -219,6 +219,11 @@ class Gen:
             generics.append(self.pick(["const N: usize", "const N: usize = 3"]))
         if self.maybe(0.05):
             where.append("'a: 'static")
+        if lifetimes and self.maybe(0.3):
+            # predicates that talk about a lifetime parameter of the function: they can only live on the method
+            where.append(self.pick(["T: 'a", "'b: 'a" if len(lifetimes) > 1 else "'a: 'a", "Vec<&'a u8>: Clone",
+                                    "for<'x> &'x T: Tr<'a>", "&'a T: A", "T: Gen<'a>", "for<'x> &'x T: Sized",
+                                    "(T, &'a ()): B"]))
         if self.maybe(0.06):
             # bounded types the where-clause walk treats specially: qualified-self and leading-colon paths,
             # multi-segment paths, and (when the dependency is `D`) the dependency's own projections
@@ -423,8 +428,10 @@ class Gen:
                 sig, _ = self.fn_sig(deps_kinds=kinds, allow_receiver=allow_invalid and self.maybe(0.1))
                 entries.append(f"{self.attrs(0.1)}{self.pick(['', '', 'pub ', 'pub(crate) '])}{sig} {self.pick(BODIES)}")
             else:
-                entries.append(self.pick(["type Out = u8;", "const K: u8 = 1;", "fn decl(d: &impl A);", "mm!();",
-                                          "const C2: u8 = { 1 };"]))
+                # non-function items, with the attributes and visibilities an item can carry
+                entries.append(self.attrs(0.2) + self.pick(["", "", "pub ", "pub(crate) ", "pub(super) ", "pub(in crate::a) "]) +
+                               self.pick(["type Out = u8;", "const K: u8 = 1;", "fn decl(d: &impl A);", "mm!();",
+                                          "const C2: u8 = { 1 };", "mm! { a, b }", "type G<T> = Vec<T>;"]))
         attr = self.pick(["", "", "", "ref", "dyn", "ref dyn", "debug = false", "ref debug = false", "debug = false, debug",
                           "ref debug, debug = false", "dyn debug = false"])
         if allow_invalid and self.maybe(0.3):
